@@ -56,7 +56,13 @@ def gen_c11_spec(rng: random.Random) -> Dict[str, Any]:
                 b["dur"] = []
                 if b["out"] == "raise:CancelledError":
                     b["out"] = "raise:ValueError"
-        sends.append({"tok": tok, "task": task, "beh": beh, "labels": labels, "at": rng.choice([0, 0, 0.01])})
+        snd: Dict[str, Any] = {"tok": tok, "task": task, "beh": beh, "labels": labels, "at": rng.choice([0, 0, 0.01])}
+        if task == "t_async" and rng.random() < 0.2:
+            # a parameter typed as a model with a generated field the sender left out: the value the first attempt
+            # saw is part of the arguments every further attempt must get
+            snd["task"] = "t_model"
+            snd["kwargs"] = {"req": {"name": rng.choice(["a", "b"])}}
+        sends.append(snd)
         meta[tok] = {"mr_kind": mr_kind, "mr": mr, "ro_kind": ro_kind}
     mws = [{"pre_execute": {"async": rng.random() < 0.5, "lat": rng.choice([0, "y"])}}]
     spec: Dict[str, Any] = {
@@ -69,6 +75,18 @@ def gen_c11_spec(rng: random.Random) -> Dict[str, Any]:
         "loop_ackable": rng.random() < 0.5,
         "stop_at": 30.0, "horizon": 60.0, "_meta": meta,
     }
+    if rng.random() < 0.2:
+        # the same through the bundled InMemoryBroker (kick() starts the execution itself) and its result backend;
+        # nothing here takes time, so attempts cannot overtake each other
+        spec["via"] = "inmemory"
+        spec["backend"] = {"lat": 0, "stock": True}
+        spec["mws"] = [{"pre_execute": {"async": False, "lat": 0}}]
+        spec.pop("loop_ackable", None)
+        for s_ in sends:
+            s_["at"] = 0
+            for b in s_["beh"]:
+                if rng.random() < 0.7:
+                    b["dur"] = []
     return spec
 
 
@@ -150,7 +168,8 @@ def oracle_c11(rr: Any, spec: Dict[str, Any]) -> "tuple[List[Violation], int]":
                 # mechanism (recorded finding F15): the retry is sent from on_error *before* the failed
                 # attempt's result is saved, so the saves of two attempts of one task id can overlap and the
                 # earlier attempt's save may complete last (slow / reordering backend), overwriting the final one
-                if final is not None and last and not spec["retry"]["no_result_on_retry"]:
+                # (it needs something that takes time between the re-send and the save: a backend with latency)
+                if final is not None and last and not spec["retry"]["no_result_on_retry"] and spec.get("backend", {}).get("lat"):
                     exits = {}
                     for e in tr:
                         if e["k"] == "set_exit":
@@ -170,7 +189,12 @@ def oracle_c11(rr: Any, spec: Dict[str, Any]) -> "tuple[List[Violation], int]":
                 v.append(Violation("labels-changed-on-retry", f"{tok}: attempt saw labels {lab}, sent {safe_json(user)}"))
                 break
         for k, e in enumerate(got["start"]):
-            if e["args"] != [] or e["kwargs"] != {}:
+            if send.get("task") == "t_model":
+                first_ = got["start"][0]
+                if e["args"] != first_["args"] or e["kwargs"] != first_["kwargs"] or "key-" not in str(e["kwargs"].get("req")):
+                    v.append(Violation("args-changed-on-retry", f"{tok}: attempt {k} received kwargs {e['kwargs']}, attempt 0 had {first_['kwargs']}"))
+                    break
+            elif e["args"] != [] or e["kwargs"] != {}:
                 v.append(Violation("args-changed-on-retry", f"{tok}: attempt {k} received args {e['args']} kwargs {e['kwargs']}"))
                 break
         retries_seen = [e["labels"].get("_retries") for e in got["pre"]]
